@@ -112,7 +112,7 @@ theorem schedules_agree (kt : KeyTable) (w : World) (havoc : Ev → Ev) (t : Nat
 /-- T2: no function of either package besides registration assigns package-level state — the codec modes and the
     register are read-only while read-side operations run -/
 theorem only_registration_writes :
-    Generated.Facts.globalWriters = [("psatoken", "registerProfileUnderName", "profilesRegister")] :=
+    Generated.Facts.globalWriters = [("psatoken", "RegisterProfile+init", "profilesRegister")] :=
   Tie.Facts.globalWriters
 
 -- non-vacuity: a schedule of two threads reading one shared claims-set and creating their own
